@@ -172,6 +172,8 @@ def check_function(cir, opts, ns, discs, per):
 
 
 def _arg_type(typ):
+    if typ in domain.MIXED_UNIONS:
+        return "str"  # a scalar mixed with a name argparse knows nothing about: the documented fallback, not the scalar
     names = domain.type_names(typ or "str")
     for s in ("int", "float", "bool", "str"):
         if s in names:
